@@ -73,6 +73,9 @@ pub struct Vvm {
     pub max_depth: RefCell<u32>,
     /// (from, to, method, exit code, message) of every failed invocation since the last `take_errors`
     pub error_log: RefCell<Vec<(u64, Address, MethodNum, u32, String)>>,
+    /// the runtime policy handed to the actors (default: `Policy::default()`); set it right after
+    /// construction, e.g. to allow the 2 KiB proof types whose partitions hold two sectors
+    pub policy: Policy,
 }
 
 /// Which nested sends are forced to abort. A send matches when every `Some` field matches.
@@ -121,6 +124,7 @@ impl Vvm {
             consensus_fault: RefCell::new(None),
             max_depth: RefCell::new(1024),
             error_log: RefCell::new(vec![]),
+            policy: Policy::default(),
         }
     }
 
@@ -379,7 +383,7 @@ impl VM for Vvm {
             allow_side_effects: RefCell::new(true),
             caller_validated: RefCell::new(false),
             read_only: false,
-            policy: &Policy::default(),
+            policy: &self.policy,
             subinvocations: RefCell::new(vec![]),
             events: RefCell::new(vec![]),
         };
